@@ -268,6 +268,19 @@ def _loop_spec(eng, node, fr):
     return ordinal, spec
 
 
+def _ghost_frame(eng, start, end, ordinal, pre, node):
+    """Ghost variables a loop is declared not to touch (contract.loop_ghost) must be unchanged at the end of its body."""
+    lg = getattr(eng.cur, "loop_ghost", None) or {}
+    if ordinal not in lg:
+        return
+    for name, v0 in start.ghost.items():
+        if name.startswith("#") or name.startswith("py:") or name in lg[ordinal]:
+            continue
+        v1 = end.ghost.get(name)
+        if _is_z3(v0) and _is_z3(v1) and not v0.eq(v1):
+            eng.oblige("ghost-frame", f"{pre}: the loop body leaves the ghost variable {name} unchanged (declared frame)", end, v1 == v0, node)
+
+
 def _body_ensures(eng, spec, st, fr, extra, pre, node):
     """per-iteration postcondition of a loop body (state at the end of the iteration; k_ = index of this iteration)"""
     if getattr(spec, "body_ensures", None) is None:
@@ -302,6 +315,7 @@ def while_loop(eng, s, st, fr, k):
         def body_end(s2):
             eng.oblige_clauses("invariant-preserve", pre, s2, _inv(eng, spec, s2, fr, {}), s)
             _body_ensures(eng, spec, s2, fr, {}, pre, s)
+            _ghost_frame(eng, body_st, s2, ordinal, pre, s)
             if var0 is not None:
                 var1 = spec.variant(eng.S, eng.namespace(s2, entry=fr.fn["entry"]))
                 eng.oblige("variant", f"{pre}:decreases", s2, z3.And(var0 >= 0, var1 < var0), s)
@@ -434,6 +448,7 @@ def cut_loop(eng, s, it, st, fr, k):
     def body_end(s2):
         eng.oblige_clauses("invariant-preserve", pre, s2, _inv(eng, spec, s2, fr, {"k_": kk + 1, "n_": n}), s)
         _body_ensures(eng, spec, s2, fr, {"k_": kk, "n_": n}, pre, s)
+        _ghost_frame(eng, sh_it, s2, ordinal, pre, s)
         eng.canary(f"{pre}:body-end", s2, s)
     fr_body = fr.with_(brk=lambda s2: k(s2), cont=body_end)
     eng.assign(s.target, elem(kk, sh_it), sh_it, fr, lambda s2: eng.ex(s.body, s2, fr_body, body_end), s)
